@@ -84,6 +84,8 @@ def pk(v):
     """value -> compact wire format (strings and byte strings as numbers, see Model/AreaModel.v)"""
     k, x = v
     if k == "s":
+        if all(ord(ch) < 256 for ch in x):
+            return VL([VI(-6), VI(len(x)), VI(int.from_bytes(x.encode("latin-1"), "big"))])
         n = 0
         for ch in x:
             n = (n << 21) | ord(ch)
@@ -95,6 +97,94 @@ def pk(v):
     return v
 
 
+def lit(v):
+    """Coq literal of a value for an expression wrapped in ( ... )%Z: no scope marks, large numbers in hexadecimal
+    (Coq elaborates long decimal numerals and long terms slowly)"""
+    k, x = v
+    if k == "i":
+        if x < 0:
+            return f"VInt ({x})"
+        return f"VInt {hex(x) if x >= 1 << 40 else x}"
+    if k == "l":
+        return "VList [" + "; ".join(lit(y) for y in x) + "]"
+    if k == "e":
+        return f"VErr {x}%N"
+    return vlib.coq_lit(v)
+
+
+NOEXP = VL([VI(-3)])
+MARK = ("l", [("i", -4)])
+
+
+def exp_bytes(res, key):
+    if key not in res:
+        return NOEXP
+    r = res[key]
+    return vlib.VE(r["err"]) if "err" in r else pk(VB(bytes.fromhex(r["ok"])))
+
+
+def exp_snap(res, key):
+    return exp_bytes(res, key)
+
+
+def exp_ints(res, key):
+    if key not in res:
+        return NOEXP
+    r = res[key]
+    return vlib.VE(r["err"]) if "err" in r else VL([VI(x) for x in r["ok"]])
+
+
+def exp_cfg(res, key):
+    """the configuration as the model prints it -- only when the implementation delivered plain strings"""
+    if key not in res:
+        return NOEXP
+    r = res[key]
+    if "err" in r:
+        return vlib.VE(r["err"])
+    out = []
+    for (name, fl, body) in r["ok"]:
+        if fl == 0:
+            if not isinstance(body, str):
+                return NOEXP
+            out.append(VL([VS(name), VI(0), VS(body)]))
+        else:
+            if not all(isinstance(v, str) for (_, v) in body):
+                return NOEXP
+            out.append(VL([VS(name), VI(1), VL([VL([VS(fn), VS(v)]) for (fn, v) in body])]))
+    return pk(VL(out))
+
+
+def expected_slots(case, res):
+    """what the implementation produced, in the order of the model's answer; a slot equal to an earlier one is sent as a reference"""
+    ex = expected_slots_full(case, res)
+    out = []
+    for i, e in enumerate(ex):
+        ref = None
+        if e != NOEXP and e[0] == "l":
+            for j in range(i):
+                if ex[j] == e:
+                    ref = j
+                    break
+        out.append(VL([VI(-5), VI(ref)]) if ref is not None else e)
+    return out
+
+
+def expected_slots_full(case, res):
+    kind = case["kind"]
+    if "runner" in res or ("load" in res and "err" in res["load"]):
+        return []
+    if kind == "tz":
+        return [exp_bytes(res, "export"), NOEXP, exp_bytes(res, "export2")]
+    if case.get("parse_random") is not None:
+        if "err" in res.get("parse5", {"err": 0}):
+            return []
+        return [NOEXP, exp_bytes(res, "export5"), exp_snap(res, "snap5"), exp_cfg(res, "get_config5"), exp_bytes(res, "export6")]
+    e3 = exp_bytes(res, "export3") if "err" not in res.get("load3", {}) else vlib.VE(res["load3"]["err"])
+    return [NOEXP, exp_snap(res, "snap"), exp_bytes(res, "export"), NOEXP, exp_bytes(res, "export2"), exp_snap(res, "snap2"),
+            exp_cfg(res, "get_config"), e3, exp_snap(res, "snap3"), exp_ints(res, "option_words"), exp_ints(res, "option_words3"),
+            exp_bytes(res, "sealed"), exp_bytes(res, "rotkh_export"), exp_bytes(res, "crc")]
+
+
 def unpk(v):
     k, x = v
     if k == "l":
@@ -103,6 +193,8 @@ def unpk(v):
             return ("s", "".join(chr((n >> (21 * (ln - 1 - i))) & 0x1FFFFF) for i in range(ln)))
         if len(x) == 3 and x[0] == ("i", -2) and x[1][0] == "i" and x[2][0] == "i":
             return ("b", x[2][1].to_bytes(x[1][1], "big"))
+        if len(x) == 3 and x[0] == ("i", -6) and x[1][0] == "i" and x[2][0] == "i":
+            return ("s", x[2][1].to_bytes(x[1][1], "big").decode("latin-1"))
         return ("l", [unpk(y) for y in x])
     return v
 
@@ -572,10 +664,11 @@ def fix_structural(d, lay, blob, rng):
 
 
 # ------------------------------------------------------------------ model side
-def model_expr(case, R):
+def model_expr(case, R, res):
     li = case["layout"]
     kind, idx = R["amap"][li]
     d = R["layouts"][li]
+    exps = lit(VL(expected_slots(case, res)))
     if kind == "tz":
         names = [n for (n, _) in d["presets"]]
         cu = []
@@ -583,14 +676,14 @@ def model_expr(case, R):
             if k_ not in names:
                 raise Unmodelled("unknown preset name")
             cu.append(VL([VI(names.index(k_)), mval(v_)]))
-        return f"run_tz tz_{idx} [{vlib.coq_lit(pk(VL(cu)))}]"
+        return f"(run_tz tz_{idx} [{lit(pk(VL(cu)))}; {exps}])%Z"
     lay, _ = R["model_layouts"][li]
     if case.get("parse_random") is not None:
-        return f"run_area area_{idx} 2 [{vlib.coq_lit(pk(VB(bytes.fromhex(case['parse_random']))))}]"
+        return f"(run_area area_{idx} 2 [{lit(pk(VB(bytes.fromhex(case['parse_random']))))}; {exps}])%Z"
     entries = settings_to_model(lay, case["model_settings"])
     rot = bytes.fromhex(case["rotkh"]) if case.get("rotkh") else b""
-    return (f"run_area area_{idx} 1 [{vlib.coq_lit(pk(VL(entries)))}; VInt {int(bool(case.get('seal')))}; "
-            f"{vlib.coq_lit(pk(VB(rot)))}]")
+    return (f"(run_area area_{idx} 1 [{lit(pk(VL(entries)))}; VInt {int(bool(case.get('seal')))}; "
+            f"{lit(pk(VB(rot)))}; {exps}])%Z")
 
 
 def canon_cfg_value(v, hexreg=False):
@@ -643,6 +736,8 @@ def impl_slot(res, key, conv=lambda x: x):
 
 
 def model_slot(v, conv=lambda x: x):
+    if v == MARK:
+        return "same"           # the model found its value equal to what the implementation produced
     if v[0] == "e":
         return ("e", v[1])
     return ("ok", conv(v))
@@ -657,7 +752,23 @@ def mints(v):
 
 
 def msnap(v):
-    return [[x[1] for x in row[1]] for row in v[1]]
+    return v[1].hex() if v[0] == "b" else None
+
+
+def decode_snap(lay, hexstr):
+    """snapshot bytes -> [[top raw, sub raws...] per register]"""
+    b = bytes.fromhex(hexstr)
+    out, pos = [], 0
+    for r in lay["regs"]:
+        row = []
+        for x in [r] + r["subs"]:
+            n = x["w"] // 8
+            row.append(int.from_bytes(b[pos:pos + n], "big"))
+            pos += n
+        out.append(row)
+    if pos != len(b):
+        raise ValueError("snapshot length does not match the layout")
+    return out
 
 
 # ------------------------------------------------------------------ implementation side
@@ -766,6 +877,11 @@ def apply_oracles(rep, case, res, R):
         return 1
     scen = case["scenario"]
     lay = None if kind == "tz" else R["model_layouts"][case["layout"]][0]
+    if lay is not None:
+        res = dict(res)
+        for k_ in ("snap", "snap2", "snap3", "snap4", "snap5", "snap6"):
+            if k_ in res and "ok" in res[k_]:
+                res[k_] = {"ok": decode_snap(lay, res[k_]["ok"])}
     if scen == "template":
         for stage, text in (("template", "template generation failed"), ("yaml", "the template is not a YAML mapping"),
                             ("schema", "the template does not satisfy the area's own validation schema")):
@@ -992,7 +1108,7 @@ def compare_model(case, res, mv, R):
         return ["implementation runner failed"]
 
     def cmp(name, i_slot, m_slot):
-        if i_slot is None:
+        if i_slot is None or m_slot == "same":
             return
         if i_slot[0] == "e" or m_slot[0] == "e":
             if i_slot[0] != m_slot[0] or i_slot[1] != m_slot[1]:
@@ -1120,7 +1236,7 @@ def run(tier):
             else:
                 c["model_settings"] = c["settings"]
                 c2 = c
-            exprs.append(model_expr(c2, R))
+            exprs.append(model_expr(c2, R, r))
             owners.append(ci)
         except Unmodelled as ex:
             unmodelled += 1
